@@ -28,6 +28,9 @@ X6 = [[0, 0], [0, 1], [1, 0], [1, 1], [2, 0], [0, 2]]
 Q = [[0, 0], [1, 1], [2, 2]]
 PERM_ROWS = [(1, [0, 0], 1.0), (2, [1, 1], 0.0), (1, [1, 0], 0.5), (2, [0, 1], 2.0), (1, [1, 1], 4.0)]
 LAW_ROWS = [(1, [1, 0], 1.0), (2, [0, 1], 0.5), (1, [1, 1], 2.0), (2, [1, 0], -1.0)]
+# integer rewards for the narrow-dtype laws: every reward and every shifted reward fits int8, per-arm totals (and sums of
+# squares) do not; handed over as an int8 numpy array
+LAW_ROWS_I8 = [(1, [1, 0], 100), (2, [0, 1], 90), (1, [1, 1], 60), (2, [1, 0], -100)]
 
 
 def meta(tier, seed):
@@ -39,7 +42,10 @@ def meta(tier, seed):
                   "bandit with the same seed: bit-equal on the exactly summable alphabet, 1e-9 for linear policies; "
                   "(c) greedy/UCB1 expectations shift by c, Softmax unchanged, LinGreedy scales by c (1e-9)",
         "bounds": {"relabellings": list(RELABELS), "permutation_rows": "n <= 5 of 5 fixed rows",
-                   "shift": [-3, 0.5, 10, 2 ** 20, "-2**20 (Softmax)"], "scale": [-2, 0.5, 3], "law_histories": "row sequences n <= 3 over 4 rows with "
+                   "shift": [-3, 0.5, 10, 2 ** 20, "-2**20 (Softmax)"], "scale": [-2, 0.5, 3],
+                   "narrow_dtype_laws": "shift laws of greedy / UCB1 / Softmax again with int8 reward arrays (rewards 100, 90, 60, "
+                                        "-100; shifts -20, 20, 27: every value fits int8, the per-arm totals do not)",
+                   "law_histories": "row sequences n <= 3 over 4 rows with "
                    "both arms observed x all compositions"},
         "assumptions": ["KNearest is outside (b): its tie-break may depend on row order, as the statement allows"],
     }
@@ -51,7 +57,7 @@ def shards(tier, seed):
         out.append({"part": "a", "ln": ln, "nn": nn, "seed": 151 + seed})
         if nn in ("none", "rad", "lsh"):
             out.append({"part": "b", "ln": ln, "nn": nn, "nmax": 5, "seed": 151 + seed})
-    for law in ("shift_eg0", "shift_ucb", "shift_sm", "scale_lg"):
+    for law in LAWS:
         out.append({"part": "c", "law": law, "seed": 151 + seed})
     return A.heavy_first(out)
 
@@ -196,17 +202,25 @@ LAWS = {
     "shift_ucb": ("ucb", "shift", [-3, 0.5, 10, 2 ** 20]),
     "shift_sm": ("sm", "softmax", [-3, 0.5, 10, 2 ** 20, -2 ** 20]),
     "scale_lg": ("lg", "scale", [-2, 0.5, 3]),
+    # the same laws with the rewards as int8 arrays (the shifted rewards still fit, the totals do not)
+    "shift_eg0_i8": ("eg0", "shift", [-20, 20, 27], "int8"),
+    "shift_ucb_i8": ("ucb", "shift", [-20, 20, 27], "int8"),
+    "shift_sm_i8": ("sm", "softmax", [-20, 20, 27], "int8"),
 }
 
 
-def law_run(ln, seed, seq, comp, f):
+def law_rows(law):
+    return LAW_ROWS_I8 if len(LAWS[law]) > 3 else LAW_ROWS
+
+
+def law_run(ln, seed, seq, comp, f, dtype=None):
     cfg = A.config(ln, "none", seed=seed)
     cf = ops.is_context_free(cfg)
     m = ops.build(cfg)
     for i, (a, b) in enumerate(comp):
         rows = seq[a:b]
         ops.apply(m, ["fit" if i == 0 else "partial_fit", [r[0] for r in rows], [f(r[2]) for r in rows],
-                      None if cf else [list(r[1]) for r in rows]])
+                      None if cf else [list(r[1]) for r in rows]] + ([{"r": dtype}] if dtype else []))
     if ln == "sm":
         return ops.norm(dict(m._imp.arm_to_expectation))        # the soft-max weights (the public call draws from them)
     return ops.call(m, "predict_expectations", None if cf else Q)
@@ -228,18 +242,19 @@ def law_check(kind, base, got, c):
 
 
 def part_c(shard, acc):
-    ln, kind, consts = LAWS[shard["law"]]
+    ln, kind, consts = LAWS[shard["law"]][:3]
+    dtype = LAWS[shard["law"]][3] if len(LAWS[shard["law"]]) > 3 else None
     seed = shard["seed"]
     for n in range(2, 4):
-        for seq in itertools.product(LAW_ROWS, repeat=n):
+        for seq in itertools.product(law_rows(shard["law"]), repeat=n):
             if {r[0] for r in seq} != {1, 2}:
                 continue
             for comp in A.compositions(n):
                 # every arm observed since the last fit: true for partial_fit chains after one fit
-                base = law_run(ln, seed, list(seq), comp, lambda r: r)
+                base = law_run(ln, seed, list(seq), comp, lambda r: r, dtype)
                 for c in consts:
                     f = (lambda r, c=c: r * c) if kind == "scale" else (lambda r, c=c: r + c)
-                    got = law_run(ln, seed, list(seq), comp, f)
+                    got = law_run(ln, seed, list(seq), comp, f, dtype)
                     acc.traces += 1
                     key = (shard["law"], str(seq), str(comp), c)
                     acc.state(key)
@@ -249,7 +264,8 @@ def part_c(shard, acc):
                         acc.violation("c %s" % shard["law"], {"part": "c", "law": shard["law"], "seed": seed,
                                                               "seq": [list(r) for r in seq], "comp": comp, "c": c},
                                       "%s with constant %r: %r vs base %r" % (shard["law"], c, got, base))
-    acc.sample({"part": "c", "law": shard["law"], "rows": [list(r) for r in LAW_ROWS], "constants": consts})
+    acc.sample({"part": "c", "law": shard["law"], "rows": [list(r) for r in law_rows(shard["law"])], "constants": consts,
+                "reward_dtype": dtype or "python floats"})
 
 
 def run_shard(shard):
@@ -277,11 +293,12 @@ def replay(w):
         base = fit_rows(w["ln"], w["nn"], w["seed"], rows)
         got = fit_rows(w["ln"], w["nn"], w["seed"], [rows[i] for i in w["perm"]])
         return [] if ops.same(got, base, rtol=tol, atol=tol) else ["permuted rows give %r, original %r" % (got, base)]
-    ln, kind, _ = LAWS[w["law"]]
+    ln, kind = LAWS[w["law"]][:2]
+    dtype = LAWS[w["law"]][3] if len(LAWS[w["law"]]) > 3 else None
     seq = [(r[0], r[1], r[2]) for r in w["seq"]]
     comp = [tuple(c) for c in w["comp"]]
     c = w["c"]
-    base = law_run(ln, w["seed"], seq, comp, lambda r: r)
+    base = law_run(ln, w["seed"], seq, comp, lambda r: r, dtype)
     f = (lambda r: r * c) if kind == "scale" else (lambda r: r + c)
-    got = law_run(ln, w["seed"], seq, comp, f)
+    got = law_run(ln, w["seed"], seq, comp, f, dtype)
     return [] if law_check(kind, base, got, c) else ["law violated: %r vs %r" % (got, base)]
